@@ -5,32 +5,8 @@ verus! {
 //@include inc/attr_abs.rs
 
 // ---------------------------------------------------------------- stun-agent/src/message.rs
-//@item! stun_agent :: mod message > struct StunAttributes
-pub open spec fn is_trailer_ty(t: u16) -> bool { t == TY_MESSAGE_INTEGRITY || t == TY_MESSAGE_INTEGRITY_SHA256 || t == TY_FINGERPRINT }
-pub open spec fn distinct_types(s: Seq<StunAttribute>) -> bool {
-    forall|i: int, j: int| 0 <= i < j < s.len() ==> s[i].ty() != s[j].ty()
-}
-pub open spec fn opt_seq(o: Option<StunAttribute>) -> Seq<StunAttribute> {
-    match o { Some(a) => seq![a], None => Seq::<StunAttribute>::empty() }
-}
+//@include inc/attrset_vocab.rs
 impl StunAttributes {
-    // one attribute per type, in first-insertion order; integrity / fingerprint attributes live in their own slots
-    pub open spec fn wf(&self) -> bool {
-        &&& distinct_types(self.attributes@)
-        &&& (forall|i: int| 0 <= i < self.attributes@.len() ==> !is_trailer_ty(#[trigger] self.attributes@[i].ty()))
-        &&& (self.integrity is Some ==> self.integrity->Some_0.ty() == TY_MESSAGE_INTEGRITY)
-        &&& (self.integrity_sha256 is Some ==> self.integrity_sha256->Some_0.ty() == TY_MESSAGE_INTEGRITY_SHA256)
-        &&& (self.fingerprint is Some ==> self.fingerprint->Some_0.ty() == TY_FINGERPRINT)
-    }
-    // what ends up on the wire, in order (From<StunAttributes> for Vec<StunAttribute>)
-    pub open spec fn flat(&self) -> Seq<StunAttribute> {
-        self.attributes@ + opt_seq(self.integrity) + opt_seq(self.integrity_sha256) + opt_seq(self.fingerprint)
-    }
-    pub open spec fn index_of(&self, t: u16) -> Option<int> {
-        if exists|i: int| 0 <= i < self.attributes@.len() && self.attributes@[i].ty() == t {
-            Some(choose|i: int| 0 <= i < self.attributes@.len() && self.attributes@[i].ty() == t)
-        } else { None }
-    }
 //@item stun_agent :: mod message > impl StunAttributes > fn add
 //@tags C13
 //@rules R6P
@@ -160,27 +136,7 @@ pub fn with_attribute(self, attribute: StunAttribute) -> (r: Self)
 
 // ---------------------------------------------------------------- lib.rs: the agent's view of the RFC 8489 ordering rule
 //@include inc/admission.rs
-// core::slice::Iter over the message's attributes, modelled as (slice, position) (trusted model of std)
-pub struct Iter<'a, T> { pub s: &'a [T], pub pos: usize }
-impl<'a, T> Iter<'a, T> {
-    pub fn next(&mut self) -> (r: Option<&'a T>)
-        requires old(self).pos <= old(self).s@.len(),
-        ensures final(self).s == old(self).s,
-            old(self).pos < old(self).s@.len() ==> r == Some(&old(self).s@[old(self).pos as int]) && final(self).pos == old(self).pos + 1,
-            old(self).pos >= old(self).s@.len() ==> r is None && final(self).pos == old(self).pos,
-    {
-        if self.pos < self.s.len() { let r = &self.s[self.pos]; self.pos = self.pos + 1; Some(r) } else { None }
-    }
-}
-pub open spec fn types_of(s: Seq<StunAttribute>) -> Seq<u16> { Seq::new(s.len(), |i: int| s[i].ty()) }
-//@item! stun_agent :: struct ProtectedAttributeIteratorObject
-impl<'a> ProtectedAttributeIteratorObject<'a> {
-    pub open spec fn ts(&self) -> Seq<u16> { types_of(self.iter.s@) }
-    pub open spec fn flags(&self) -> AdmFlags { AdmFlags { mi: self.integrity, sha: self.integrity_sha256, fp: self.fingerprint } }
-    pub open spec fn wf(&self) -> bool {
-        self.iter.pos <= self.iter.s@.len() && self.flags() == flags_at(self.ts(), self.iter.pos as int)
-    }
-}
+//@include inc/protiter_vocab.rs
 // (R7) the trait method is verified as an inherent method: Verus forbids `requires` on trait impls
 impl<'a> ProtectedAttributeIteratorObject<'a> {
 //@item stun_agent :: impl<'a> Iterator for ProtectedAttributeIteratorObject<'a> > fn next
@@ -220,6 +176,21 @@ impl<'a> ProtectedAttributeIteratorObject<'a> {
             None => final(self).iter.pos == old(self).iter.s@.len()
                 && forall|j: int| old(self).iter.pos <= j < old(self).iter.s@.len() ==> !admitted(old(self).ts(), j),
         },
+//@end
+}
+pub fn vx_slice_iter<'a, T>(s: &'a [T]) -> (r: Iter<'a, T>)
+    ensures r.s == s, r.pos == 0,
+{ Iter { s, pos: 0 } }
+// (R7) `impl ProtectedAttributeIterator for &[StunAttribute]`, as a free-standing inherent-style function of the slice
+pub struct VxSliceRef<'a>(pub &'a [StunAttribute]);
+impl<'a> VxSliceRef<'a> {
+//@item stun_agent :: impl<'a> ProtectedAttributeIterator<'a> for &'a [StunAttribute] > fn protected_iter
+//@tags C09 C07 C08
+//@sub "self.iter()" => "vx_slice_iter(self.0)"
+//@head
+    proof { assert(flags_at(types_of(self.0@), 0) == (AdmFlags { mi: false, sha: false, fp: false })); }
+//@spec
+    ensures r.wf(), r.iter.s == self.0, r.iter.pos == 0,
 //@end
 }
 proof fn vx_sentinel() ensures false {}
